@@ -94,6 +94,18 @@ ID_ALPHABETS = {
            [' s', 's', 's ', ' s ', 'S1', 'S1 ', ' S1', 'S2\t', 'S2', '\tS2',
             's s', ' s s', 's s ', 't', 't ', ' t', '\t', ' \t', 'u\xa0', 'u',
             'v  ', 'v', '  v', 'w w', ' w w ']),
+    # ids that coincide with names used elsewhere: metadata categories and
+    # the column labels exporters add, document member names, words that
+    # readers might take for numbers, missing values or booleans
+    'labels': (['taxonomy', 'Taxonomy', 'barcode', 'depth', 'rows', 'id',
+                'metadata', 'data', 'None', 'nan', 'NA', 'inf', 'True', '0',
+                '1', '-1', '1e3', 'observation', 'sample', 'whole', 'shape',
+                'Consensus Lineage', 'OTU Metadata', 'collapsed_ids', 'null'],
+               ['taxonomy', 'Consensus Lineage', 'Taxonomy', 'ph', 'columns',
+                'id', 'metadata', 'type', 'None', 'nan', 'NA', 'Infinity',
+                'False', '0', '1', '-0', '0x10', 'sample', 'observation',
+                'whole', 'date', 'OTU Metadata', 'ConsensusLineage', 'note',
+                'null']),
     'natsort': (['a10', 'a2', 'a1.5', 'b1', 'A3', '10', '9', '1.10', '1.9',
                  'x', 'a', 'a01', 'a1', 'z9z1', 'z9z10', 'z10z1', '2b', '2a',
                  '07', '7', 'a-1', 'a.1', 'a_1', '1e3', 'b'],
@@ -138,9 +150,11 @@ MD_CATS = [('barcode', 'text'), ('depth', 'int'), ('ph', 'float'),
            ('TAXONOMY', 'text'), ('Collapsed_IDs', 'text'),
            # hierarchical list with an unnamed (blank) interior rank: text
            # formats only (HDF5 pads lists with blanks)
-           ('lineage', 'elist')]
+           ('lineage', 'elist'),
+           # one numeric category holding ints and floats side by side
+           ('score', 'num')]
 N_BASIC_CATS = 10
-BASIC_CATS = list(range(N_BASIC_CATS)) + [14, 15]
+BASIC_CATS = list(range(N_BASIC_CATS)) + [14, 15, 17]
 _TEXTS = ['AATT', 'gut', 'soil', 'x y', 'a;b', 'k__Bacteria', 'p__Firmicutes',
           'c__Bacilli', 'o__Lacto', 'café', 'a/b', 'q', 'zz top', 'n-a',
           'B|C', 'water', 'skin', 'β', 'l33t', 'Z']
@@ -160,6 +174,8 @@ def md_value(kind, salt, idtext, cat, ctrl=False):
         if h % 4 == 1:
             return (0, 1, 2, -1)[(h >> 4) % 4]    # equal to a float / a bool
         return int(h % 1000) - 200
+    if kind == 'num':
+        return (int(h % 50) - 5) if h % 2 else ((h % 4096) / 64.0 - 8.0)
     if kind == 'float':
         if h % 4 == 1:
             return (0.0, 1.0, 2.0, -1.0)[(h >> 4) % 4]   # integral floats
